@@ -168,7 +168,7 @@ func init() {
 	})
 
 	// encoding/json
-	reg("encoding/json.Marshal", "json.Marshal: may fail; on success returns non-nil bytes tojson(v); tojson is injective on string maps (jsonmap(tojson(m)) == m)",
+	reg("encoding/json.Marshal", "json.Marshal: may fail; on success returns non-nil bytes tojson(v); tojson is injective on string maps (jsonmap(tojson(m)) == m) and on strings (json.str(tojson.str(s)) == s)",
 		func(x *Exec, st *State, fr *Frame, c *callCtx) bool { return x.jsonMarshal(st, fr, c) })
 	reg("encoding/json.Unmarshal", "json.Unmarshal: may fail; on success a string map target holds jsonmap(bytes); a pointer target may be left nil (input null)",
 		func(x *Exec, st *State, fr *Frame, c *callCtx) bool { return x.jsonUnmarshal(st, fr, c) })
@@ -575,6 +575,15 @@ func (x *Exec) jsonMarshal(st *State, fr *Frame, c *callCtx) bool {
 				st.assume(Eq(App(SMapSS, "jsonmap", enc), a))
 				st.assume(Not(Eq(enc, Term{"json.null", SBytes})))
 				payload = Ite(vv.Nil, Term{"json.null", SBytes}, enc)
+				known = true
+			}
+		case VScalar:
+			// a Go string: the JSON string value that decodes to it (json.str(tojson.str(s)) == s)
+			if b, ok := iv.Dyn.Underlying().(*types.Basic); ok && b.Kind() == types.String && vv.T.Sort == SStr {
+				enc := App(SBytes, x.sym.Func("tojson.str", []Sort{SStr}, SBytes), vv.T)
+				st.assume(Eq(App(SStr, x.sym.Func("json.str", []Sort{SBytes}, SStr), enc), vv.T))
+				st.assume(Not(Eq(enc, Term{"json.null", SBytes})))
+				payload = enc
 				known = true
 			}
 		case VPtr:
